@@ -306,6 +306,11 @@ pub fn run(args: &[String]) -> i32 {
         for cwd_depth in 0..4usize {
             for near in 0..=cwd_depth {
                 for far in 0..=near {
+                  for near_empty in [false, true] {
+                    // an empty typeshare.toml is a legitimate "all keys absent" file and, being nearest, wins
+                    if near_empty && near == far {
+                        continue;
+                    }
                     for with_c in [false, true] {
                         let sc = Scratch::new("c20d");
                         sc.write("ws/app/src/lib.rs", SRC.as_bytes());
@@ -315,20 +320,22 @@ pub fn run(args: &[String]) -> i32 {
                         // far ancestor says FarP, nearer ancestor (if different) says NearP
                         sc.write(&format!("{}/typeshare.toml", dirs[far]), b"[swift]\nprefix = \"FarP\"\n[swift.type_mappings]\nDateTime = \"Date\"\n");
                         if near != far {
-                            sc.write(&format!("{}/typeshare.toml", dirs[near]), b"[swift]\nprefix = \"NearP\"\n[swift.type_mappings]\nDateTime = \"Date\"\n");
+                            let near_content: &[u8] = if near_empty { b"" } else { b"[swift]\nprefix = \"NearP\"\n[swift.type_mappings]\nDateTime = \"Date\"\n" };
+                            sc.write(&format!("{}/typeshare.toml", dirs[near]), near_content);
                         }
                         sc.write("explicit.toml", b"[swift]\nprefix = \"ExplicitP\"\n[swift.type_mappings]\nDateTime = \"Date\"\n");
                         let extra = if with_c { vec![s("-c"), sc.path("explicit.toml").to_string_lossy().into_owned()] } else { vec![] };
                         let o = run_lang(&sc, Lang::Swift, &extra, dirs[cwd_depth]);
                         discovery_runs += 1;
-                        let want = if with_c { "ExplicitPItem" } else if near != far { "NearPItem" } else { "FarPItem" };
+                        let want = if with_c { "ExplicitPItem" } else if near != far && near_empty { "Item" } else if near != far { "NearPItem" } else { "FarPItem" };
                         if o.item_name.as_deref() != Some(want) {
                             rep.vios.add(Violation {
-                                sig: format!("C20|swift|config-discovery|explicit={}|two_levels={}|expected={}", with_c as u8, (near != far) as u8, want.trim_end_matches("Item")),
+                                sig: format!("C20|swift|config-discovery|explicit={}|two_levels={}|nearest_empty={}|expected={}", with_c as u8, (near != far) as u8, near_empty as u8, want.trim_end_matches("Item")),
                                 detail: json!({"cwd": dirs[cwd_depth], "nearest_config_at": dirs[near], "farther_config_at": dirs[far], "argv": o.argv, "observed": o.item_name, "expected": want, "stderr": o.stderr}),
                             });
                         }
                     }
+                  }
                 }
             }
         }
